@@ -151,14 +151,19 @@ func structure(r *gen.Rand, log [][4]string) xeng.Oracle {
 }
 
 func Run(c *gen.Ctx) error {
-	r := gen.NewRand(c.Seed)
-	meta := &gen.Meta{Property: "C01"}
 	cfgs := xeng.QuickConfigs
 	nops, perOp := 70, 3
 	if c.Thorough() {
 		cfgs = xeng.ThoroughConfigs
 		nops, perOp = 1200, 4
 	}
+	return RunWith(c, "C01", cfgs, nops, perOp, false)
+}
+
+// RunWith is shared with C04 (singleFaults: enumerate every single fault point of every operation).
+func RunWith(c *gen.Ctx, prop string, cfgs []xeng.Config, nops, perOp int, singleFaults bool) error {
+	r := gen.NewRand(c.Seed)
+	meta := &gen.Meta{Property: prop}
 	probes, err := xeng.BuildProbes(xeng.ProbeSchema, cfgs, nil)
 	if err != nil {
 		return err
@@ -254,6 +259,16 @@ func Run(c *gen.Ctx) error {
 	}
 	for i := range ops {
 		plan = append(plan, planned{i, round2[i].Oracle})
+		if singleFaults {
+			// every single fault point of the operation (from the model-independent invocation log) x {error, panic}
+			for _, o := range allSingleFaults(round2[i].Oracle, res2[i].Log) {
+				plan = append(plan, planned{i, o})
+			}
+			for _, o := range genOracles(ro, round2[i].Oracle, res2[i].Log, perOp) { // random multi-fault sets
+				plan = append(plan, planned{i, o})
+			}
+			continue
+		}
 		for _, o := range genOracles(ro, round2[i].Oracle, res2[i].Log, perOp) {
 			plan = append(plan, planned{i, o})
 		}
@@ -263,8 +278,9 @@ func Run(c *gen.Ctx) error {
 	}
 
 	// ---- execute the plan on every configuration -------------------------------------------------------
-	cf := &gen.CaseFile{Dir: c.OutDir, Prop: "C01", Kind: "exec", Requires: []string{"Base.Prelude", "Model.Exec", "Corr.Corr_C01"}, Type: "exec_case",
-		Checks: []gen.Check{{Label: "corr", Fn: "exec_corr"}, {Label: "mon", Fn: "exec_monitor"}, {Label: "montn", Fn: "exec_monitor_tn"}}, Shard: 60}
+	cf := &gen.CaseFile{Dir: c.OutDir, Prop: prop, Kind: "exec", Requires: []string{"Base.Prelude", "Model.Exec", "Corr.Corr_C01"}, Type: "exec_case",
+		Checks: []gen.Check{{Label: "corr", Fn: "exec_corr"}, {Label: "mon", Fn: "exec_monitor"}, {Label: "montn", Fn: "exec_monitor_tn"},
+			{Label: "c04", Fn: "c04_monitor"}}, Shard: 60}
 	cf.Preamble = "Definition sch : schema := " + xeng.SchemaCoq(xeng.Schema) + "."
 	var cases []xeng.Case
 	for i, p := range plan {
@@ -305,8 +321,8 @@ func Run(c *gen.Ctx) error {
 			if op.op.Operation == ast.Mutation {
 				root = "Mutation"
 			}
-			term := fmt.Sprintf("{| xc_schema := sch; xc_root := %s; xc_sels := %s; xc_oracle := %s; xc_data := %s; xc_errors := %s; xc_log := %s |}",
-				gen.Str(root), selTerms[p.op], p.orc.Coq(), first.DataTerm(), first.ErrorsTerm(), xeng.LogCoq(res.Log))
+			term := fmt.Sprintf("{| xc_schema := sch; xc_root := %s; xc_sels := %s; xc_oracle := %s; xc_data := %s; xc_errors := %s; xc_log := %s; xc_recovers := %d%%nat |}",
+				gen.Str(root), selTerms[p.op], p.orc.Coq(), first.DataTerm(), first.ErrorsTerm(), xeng.LogCoq(res.Log), res.Recovers)
 			if seen[term] {
 				continue // this configuration behaves exactly like an earlier one on this case
 			}
@@ -357,4 +373,28 @@ func Run(c *gen.Ctx) error {
 	meta.Distribution = map[string]any{"operations": len(ops), "generated_but_invalid_discarded": invalid, "plans": len(plan), "configurations": len(probes),
 		"cases_where_configurations_differ": configDiffs, "features": feat}
 	return meta.Write(c.OutDir)
+}
+
+// allSingleFaults: for each logged invocation, one oracle with an error there and one with a panic there
+// (directive invocations: block, error, panic).
+func allSingleFaults(base xeng.Oracle, log [][4]string) []xeng.Oracle {
+	var out []xeng.Oracle
+	seen := map[string]bool{}
+	for _, l := range log {
+		key := l[0] + l[1]
+		if seen[key] {
+			continue
+		}
+		seen[key] = true
+		for _, kind := range []string{"error", "panic"} {
+			o := base.Clone()
+			if l[0] == "g" {
+				o.Guards[l[1]] = xeng.FieldPlan{O: kind, Tag: "sf"}
+			} else {
+				o.Fields[l[1]] = xeng.FieldPlan{O: kind, Tag: "sf"}
+			}
+			out = append(out, o)
+		}
+	}
+	return out
 }
